@@ -176,6 +176,20 @@ Definition sample_eqb (a b : sample) : bool :=
 (* the representation of a sample in Model/Thetas.v: theta P S at P = S = pdict *)
 Definition sample_theta (t : sample) : pdict * pdict := (sample_private t, sample_shared t).
 
+(* two dicts that are the same finite map (any order of the entries): what from_dicts is sensitive to.  Reading an HDF5
+   group gives the attributes first and then the datasets by name - another order than the one written *)
+Definition dict_equiv (d1 d2 : pdict) : Prop := forall k, sdict_get d1 k = sdict_get d2 k.
+
+(* two dict values / dicts that agree as equals compares them: entry by entry under the same key, arrays by aeqb, scalars and
+   the float column by feqb, the id columns exactly *)
+Inductive pval_agree : pval -> pval -> Prop :=
+| AgArr : forall a b, aeqb a b = true -> pval_agree (PArr a) (PArr b)
+| AgNum : forall x y, feqb x y = true -> pval_agree (PNum x) (PNum y)
+| AgInts : forall l, pval_agree (PInts l) (PInts l)
+| AgNums : forall l l', Forall2 (fun x y => feqb x y = true) l l' -> pval_agree (PNums l) (PNums l').
+Definition pdict_agree (d1 d2 : pdict) : Prop :=
+  Forall2 (fun e1 e2 => fst e1 = fst e2 /\ pval_agree (snd e1) (snd e2)) d1 d2.
+
 End Samples.
 
 Arguments PArr {A F}.
